@@ -1689,3 +1689,144 @@ Lemma env_expanded_token_ends_where_written env t u :
   same_line (exp_tok env t) u =
     ((t_file t =? t_file u) && (t_imp t =? t_imp u) && (t_line t + (count_nl (t_text t) - t_envnl t) =? t_line u)%Z).
 Proof. split; [apply tok_breaks_retext|unfold exp_tok; rewrite same_line_retext_l; reflexivity]. Qed.
+
+(* ================= where an import argument points ================= *)
+Lemma lookup_g_In {B} (l : list ((N * bytes) * B)) f p v :
+  lookup_g l f p = Some v -> In ((f, p), v) l.
+Proof.
+  induction l as [|[[f' p'] v'] l IH]; cbn; [discriminate|].
+  destruct ((f' =? f) && beq p' p) eqn:E.
+  - intros H. injection H as <-. apply andb_prop in E as [E1 E2].
+    apply N.eqb_eq in E1. apply beq_eq in E2. subst. left; reflexivity.
+  - intros H. right. apply IH, H.
+Qed.
+
+Lemma ids_eqb_eq a : forall b, ids_eqb a b = true -> a = b.
+Proof.
+  unfold ids_eqb. induction a as [|x a IH]; intros [|y b] H; cbn in H; try discriminate; [reflexivity|].
+  apply andb_prop in H as [H1 H2]. apply N.eqb_eq in H1. subst. f_equal. apply IH, H2.
+Qed.
+
+Lemma oracle_entry_follows_rule abspaths known globs f pat ids af :
+  globs_resolve_ok abspaths known globs = true ->
+  lookup_g globs f pat = Some ids -> has_meta pat = false ->
+  lookup_f abspaths f = Some af ->
+  ids = literal_matches known (glob_pattern af pat).
+Proof.
+  intros Hok Hl Hm Haf. apply lookup_g_In in Hl.
+  unfold globs_resolve_ok in Hok. rewrite forallb_forall in Hok. specialize (Hok _ Hl).
+  cbn [fst snd] in Hok. rewrite Hm in Hok. cbn [orb] in Hok.
+  unfold resolve_literal in Hok. rewrite Haf in Hok. apply ids_eqb_eq, Hok.
+Qed.
+
+(* a relative import argument without meta characters is looked up in the directory of the file that
+   contains the import token *)
+Lemma import_resolves_relative_to_importer globs files abspaths known st t pat af ids :
+  globs_resolve_ok abspaths known globs = true ->
+  tok_at st (p_cursor st) = Some t -> lookup_f abspaths (t_file t) = Some af ->
+  lookup_s (p_snips st) pat = None -> glob_ok pat = true -> has_meta pat = false -> is_abs pat = false ->
+  lookup_g globs (t_file t) pat = Some ids ->
+  ids = literal_matches known (fjoin (path_dir af) pat) /\
+  imported_tokens globs files st pat =
+    match literal_matches known (fjoin (path_dir af) pat) with
+    | [] => if has_glob_char pat then POk [] else PErr EImport
+    | l => import_files files l
+    end.
+Proof.
+  intros Hok Ht Haf Hs Hg Hm Ha Hl.
+  assert (E : ids = literal_matches known (fjoin (path_dir af) pat)).
+  { rewrite (oracle_entry_follows_rule _ _ _ _ _ _ _ Hok Hl Hm Haf). unfold glob_pattern. rewrite Ha. reflexivity. }
+  split; [exact E|].
+  unfold imported_tokens. rewrite Hs, Hg. cbn [negb]. rewrite Ht, Hl, E.
+  destruct (literal_matches known (fjoin (path_dir af) pat)); reflexivity.
+Qed.
+
+Lemma import_absolute_as_written globs abspaths known st t pat af ids :
+  globs_resolve_ok abspaths known globs = true ->
+  tok_at st (p_cursor st) = Some t -> lookup_f abspaths (t_file t) = Some af ->
+  has_meta pat = false -> is_abs pat = true ->
+  lookup_g globs (t_file t) pat = Some ids ->
+  ids = literal_matches known pat.
+Proof.
+  intros Hok Ht Haf Hm Ha Hl.
+  rewrite (oracle_entry_follows_rule _ _ _ _ _ _ _ Hok Hl Hm Haf). unfold glob_pattern. rewrite Ha. reflexivity.
+Qed.
+
+(* the same relative name written in files of two different directories, each directory holding its
+   own file of that name (distinct paths, each known once): the two import sites get DIFFERENT files *)
+Lemma literal_matches_unique known gp i :
+  NoDup (map snd known) -> In (i, gp) known -> literal_matches known gp = [i].
+Proof.
+  unfold literal_matches. induction known as [|[j q] known IH]; intros Hnd Hin; [destruct Hin|].
+  cbn [map snd] in Hnd. inversion Hnd as [|? ? Hnotin Hnd']; subst.
+  cbn [filter snd]. destruct Hin as [Hin|Hin].
+  - injection Hin as -> ->. rewrite beq_refl. cbn [map fst]. f_equal.
+    assert (F : filter (fun e => beq (snd e) gp) known = []).
+    { clear IH Hnd Hnd'. induction known as [|[k r] known IHk]; [reflexivity|].
+      cbn [filter snd]. destruct (beq r gp) eqn:E.
+      - apply beq_eq in E. subst r. exfalso. apply Hnotin. left; reflexivity.
+      - apply IHk. intros H. apply Hnotin. right; exact H. }
+    rewrite F. reflexivity.
+  - destruct (beq q gp) eqn:E.
+    + apply beq_eq in E. subst q. exfalso. apply Hnotin. apply in_map_iff. exists (i, gp). split; [reflexivity|exact Hin].
+    + apply IH; assumption.
+Qed.
+
+Lemma same_name_two_directories globs files abspaths known st1 st2 t1 t2 pat af1 af2 i1 i2 ids1 ids2 :
+  globs_resolve_ok abspaths known globs = true ->
+  NoDup (map snd known) ->
+  tok_at st1 (p_cursor st1) = Some t1 -> lookup_f abspaths (t_file t1) = Some af1 ->
+  tok_at st2 (p_cursor st2) = Some t2 -> lookup_f abspaths (t_file t2) = Some af2 ->
+  glob_ok pat = true -> has_meta pat = false -> is_abs pat = false ->
+  lookup_s (p_snips st1) pat = None -> lookup_s (p_snips st2) pat = None ->
+  In (i1, fjoin (path_dir af1) pat) known -> In (i2, fjoin (path_dir af2) pat) known ->
+  lookup_g globs (t_file t1) pat = Some ids1 -> lookup_g globs (t_file t2) pat = Some ids2 ->
+  imported_tokens globs files st1 pat = import_files files [i1] /\
+  imported_tokens globs files st2 pat = import_files files [i2].
+Proof.
+  intros Hok Hnd Ht1 Ha1 Ht2 Ha2 Hg Hm Hab Hs1 Hs2 Hi1 Hi2 Hl1 Hl2.
+  destruct (import_resolves_relative_to_importer globs files abspaths known st1 t1 pat af1 ids1 Hok Ht1 Ha1 Hs1 Hg Hm Hab Hl1) as [_ E1].
+  destruct (import_resolves_relative_to_importer globs files abspaths known st2 t2 pat af2 ids2 Hok Ht2 Ha2 Hs2 Hg Hm Hab Hl2) as [_ E2].
+  rewrite (literal_matches_unique _ _ _ Hnd Hi1) in E1. rewrite (literal_matches_unique _ _ _ Hnd Hi2) in E2.
+  split; assumption.
+Qed.
+
+(* witness: two sites in two directories, both say `import common.conf`, each directory has its own *)
+Definition w_base : bytes := bs "/srv/conf"%string.
+Definition w_names : list (N * bytes) :=
+  [(1, bs "Casketfile"); (2, bs "sites"); (3, bs "sites/a"); (4, bs "sites/a/common.conf"); (5, bs "sites/a/site.conf");
+   (6, bs "sites/b"); (7, bs "sites/b/common.conf"); (8, bs "sites/b/site.conf")]%string.
+Definition w_files : list (N * option (list N)) :=
+  [(1, None); (2, None); (3, None);
+   (4, Some (bs "root /srv/a
+"%string)); (5, Some (bs "a.example {
+  import common.conf
+}
+"%string));
+   (6, None);
+   (7, Some (bs "root /srv/b
+basicauth / u p
+"%string)); (8, Some (bs "b.example {
+  import common.conf
+}
+"%string))].
+Definition w_main : list N := bs "import sites/a/site.conf
+import sites/b/site.conf
+"%string.
+Definition w_globs := literal_globs (abs_of w_base w_names) (known_of w_base w_names)
+  [(0, bs "sites/a/site.conf"); (0, bs "sites/b/site.conf"); (5, bs "common.conf"); (8, bs "common.conf")]%string.
+Definition block_texts (b : block) : list bytes * list (bytes * list bytes) :=
+  (fst b, map (fun g => (fst g, map t_text (snd g))) (snd b)).
+Definition w_result : option (list (list bytes * list (bytes * list bytes))) :=
+  match parse_world [] 100 w_globs w_files w_main with POk bl => Some (map block_texts bl) | _ => None end.
+Lemma two_directories_witness :
+  globs_resolve_ok (abs_of w_base w_names) (known_of w_base w_names) w_globs = true /\
+  lookup_g w_globs 5 (bs "common.conf"%string) = Some [4] /\
+  lookup_g w_globs 8 (bs "common.conf"%string) = Some [7] /\
+  w_result = Some
+      [([bs "a.example"], [(bs "root", [bs "root"; bs "/srv/a"])]);
+       ([bs "b.example"], [(bs "root", [bs "root"; bs "/srv/b"]); (bs "basicauth", [bs "basicauth"; bs "/"; bs "u"; bs "p"])])]%string.
+Proof.
+  split; [vm_compute; reflexivity|]. split; [vm_compute; reflexivity|]. split; [vm_compute; reflexivity|].
+  vm_compute. reflexivity.
+Qed.
